@@ -156,6 +156,11 @@ pub fn c10_case(rs: u64, _nonce: u64, replay: Option<Vec<u32>>) -> CaseOutcome {
         d.stats.al_control_writes.clear();
         d.stats.al_status_log.clear();
     }
+    // gen >= 2: the response of one status-poll frame of the judged operation is lost on the wire.
+    if crate::tape::gen() >= 2 && w.sim.tape.flag(25, 100, "lose_one_status_frame") {
+        let k = w.sim.tape.choose(4, "lost_status_frame") as u32;
+        w.sim.lose_response = Some((crate::wire::CMD_FPRD, 0x0130, k));
+    }
     let t0 = crate::clock::now();
     let healthy = bad == 0 && fallbacks == 0;
     out.nontrivial = members.len() >= 1 && (!healthy || members.len() >= 2);
@@ -195,7 +200,10 @@ pub fn c10_case(rs: u64, _nonce: u64, replay: Option<Vec<u32>>) -> CaseOutcome {
                 }
             }
             Err(e) => {
-                if healthy {
+                if w.sim.stats.frames_lost > 0 {
+                    out.faults.insert("loss".into(), w.sim.stats.frames_lost);
+                }
+                if healthy && w.sim.stats.frames_lost == 0 {
                     out.violations.push(viol("healthy-transition-failed", format!("{:?} on obedient devices failed with {:?} after {} us", op, e, elapsed)));
                 }
             }
@@ -205,7 +213,8 @@ pub fn c10_case(rs: u64, _nonce: u64, replay: Option<Vec<u32>>) -> CaseOutcome {
         // PRE-OP -> SAFE-OP is preceded by the PDO/SM/FMMU configuration of every member (SDO and
         // EEPROM traffic), which is not part of the transition timeout.
         let configures = matches!(op, Op::IntoSafeOp | Op::IntoOp | Op::RequestIntoOp | Op::OpThenSafeOp | Op::SafeOpThenPreOp);
-        let bound = transitions * (state_transition_us + 2_000 + 50 * members.len() as u64) + if configures { 30_000 * members.len() as u64 } else { 0 };
+        // a lost response costs its requester one PDU timeout
+        let bound = transitions * (state_transition_us + 2_000 + 50 * members.len() as u64) + if configures { 30_000 * members.len() as u64 } else { 0 } + w.sim.stats.frames_lost * 2_500;
         if elapsed > bound {
             out.violations.push(viol("transition-timeout-exceeded", format!("{:?} took {} us; bound {} us ({} transition(s) of {} us)", op, elapsed, bound, transitions, state_transition_us)));
         }
@@ -236,6 +245,8 @@ pub fn c10_case(rs: u64, _nonce: u64, replay: Option<Vec<u32>>) -> CaseOutcome {
                 },
                 Op::RequestIntoOp => match w.sim.block_on(g.into_pre_op_pdi(md)) {
                     Err(e) => out.violations.push(sim_error_violation("into_pre_op_pdi", &e)),
+                    // a status read of the configuration phase may have been the lost frame
+                    Ok(Err(_)) if w.sim.stats.frames_lost > 0 => {}
                     Ok(Err(e)) => out.violations.push(viol("healthy-transition-failed", format!("into_pre_op_pdi failed with {:?}", e))),
                     Ok(Ok(g)) => match w.sim.block_on(g.request_into_op(md)) {
                         Err(e) => out.violations.push(sim_error_violation("request_into_op", &e)),
